@@ -72,10 +72,14 @@ func genC07(t *rapid.T) c07Case {
 		c.Cfg.VInc = rapid.SampledFrom([]string{"", "same", "add:1", "dbl"}).Draw(t, "vinc")
 		c.Cfg.VDec = rapid.SampledFrom([]string{"", "half", "sub:1", "sub:5"}).Draw(t, "vdec")
 	}
+	if c.Cfg.Algo == "vegas" && c.Cfg.VThr == "" && rapid.IntRange(0, 4).Draw(t, "alphaOnly") == 0 {
+		// only alpha is tuned (a tenth of the limit, a constant): threshold, beta and the step functions stay the library's own
+		c.Cfg.VAlpha = rapid.SampledFrom([]string{"div:10", "div:10", "div:3", "k:0", "k:1", "k:4"}).Draw(t, "alphaOnlyFn")
+	}
 	if c.Cfg.Algo == "vegas" && rapid.IntRange(0, 4).Draw(t, "customNoLoad") == 0 {
 		c.Cfg.NoLoad = "single" // a caller-supplied baseline measurement (keeps the latest record low): recovery must not depend on the default one
 	}
-	if c.Cfg.VThr == "" && c.Cfg.NoLoad == "" {
+	if c.Cfg.VThr == "" && c.Cfg.VAlpha == "" && c.Cfg.NoLoad == "" {
 		genUnsetSafe(t, &c.Cfg) // short constructors / parameters left to the library defaults: judged without assuming any default value
 	}
 	if rapid.IntRange(0, 3).Draw(t, "hasPrefix") > 0 {
